@@ -414,7 +414,7 @@ def run_replays(prop, tier, col_by_test):
 def write_replay(prop, tier, seed, test, bucket, case_json, shrunk):
     d = os.path.join(VERIF, "evidence", "replays", prop.ID)
     os.makedirs(d, exist_ok=True)
-    h = hashlib.blake2b(bucket["sig"].encode(), digest_size=6).hexdigest()
+    h = hashlib.blake2b((test.name + "|" + bucket["sig"]).encode(), digest_size=6).hexdigest()
     path = os.path.join(d, f"{h}.json")
     rec = {
         "property": prop.ID, "test": test.name, "clause": bucket["clause"],
@@ -511,8 +511,10 @@ def main(argv=None):
         reported.append({"sig": b["sig"], "clause": b["clause"], "count": b["count"], "detail": b["detail"], "replay": rel})
         status = 1
     for ti, t, b in new_violations[max_shrunk:]:
-        lines.append(f"  (further bucket) clause={b['clause']} sig={b['sig']} count={b['count']}")
-        reported.append({"sig": b["sig"], "clause": b["clause"], "count": b["count"], "detail": b["detail"]})
+        path = write_replay(prop, tier, seed, t, b, b["case"], False)
+        rel = os.path.relpath(path, VERIF)
+        lines.append(f"  (further bucket, not shrunk) clause={b['clause']} sig={b['sig']} count={b['count']} replay={rel}")
+        reported.append({"sig": b["sig"], "clause": b["clause"], "count": b["count"], "detail": b["detail"], "replay": rel})
 
     if total.harness_errors:
         print("HARNESS-ERROR: exceptions outside valida escaped a property body:")
